@@ -24,7 +24,14 @@ Cat == <<
   E("op", "value", "B", "int", 10),   E("op", "value", "B", "int", 100),  E("zz", "value", "B", "int", 2),
   E("c", "visibility", "P", "int", 4), E("c", "foo", "P", "int", 2),
   Pair("a_limits", 20, 40),           Pair("a_limits", 160, 40),
-  E("b", "min", "P", "int", 4),       E("n", "max", "P", "int", 100) >>
+  E("b", "min", "P", "int", 4),       E("n", "max", "P", "int", 100),
+  \* lengths (half units): value valid under exactly one of class limits / overridden limits, both directions
+  E("s", "value", "P", "str", 10),    E("s", "value", "P", "str", 24),    E("s", "max", "P", "int", 64),
+  E("s", "max", "P", "int", 8),       E("s", "min", "P", "int", 12),      E("s", "value", "B", "int", 4),
+  E("l", "value", "B", "list", 4),    E("l", "value", "P", "list", 10),   E("l", "max", "P", "int", 12),
+  E("l", "max", "P", "int", 2),
+  E("k", "value", "P", "bytes", 4),   E("k", "value", "P", "bytes", 12),  E("k", "max", "P", "int", 16),
+  E("k", "max", "P", "int", 2),       E("k", "value", "B", "str", 6) >>
 BaseEntries == {E("mp", "value", "B", "int", 6), E("n", "value", "B", "int", 10)}
 
 Chosen == {Cat[j] : j \in sel}
